@@ -29,6 +29,41 @@ FACTORS_2 = [[[1.0, 0.0], [-0.95, 0.1]], [[1.0, 0.0], [0.9, 0.25]], [[0.5, -0.75
              [[1.0, 0.5], [-0.5, 1.0]], [[0.25, 1.0], [-1.0, 0.125]]]
 
 
+COST_KINDS = ("float_array", "float_list", "int_list", "int64", "int32", "mixed_list")
+INT_COSTS = {2: [[1, 3], [2, 5], [3, 1], [2, 3], [1, 2], [4, 1]], 3: [[1, 1, 4], [2, 3, 1], [1, 3, 2], [5, 2, 2]],
+             4: [[1, 2, 3, 4], [2, 1, 1, 3]]}
+
+
+def _mk_costs(case):
+    """the cost vector as the caller would hand it over: the algorithms do `np.array(costs)` and keep the dtype,
+    so an integer list reaches the acquisition as an int64 array"""
+    c, kind = case.get("costs"), case.get("cost_kind", "float_array")
+    if c is None:
+        return None
+    if kind == "float_array":
+        return np.array(c, dtype=float)
+    if kind == "float_list":
+        return [float(x) for x in c]
+    if kind == "int_list":
+        return [int(x) for x in c]
+    if kind == "int64":
+        return np.array([int(x) for x in c], dtype=np.int64)
+    if kind == "int32":
+        return np.array([int(x) for x in c], dtype=np.int32)
+    if kind == "mixed_list":   # e.g. [0.5, 2]: integers stay Python ints
+        return [int(x) if float(x).is_integer() and k % 2 == 1 else float(x) for k, x in enumerate(c)]
+    raise ValueError(kind)
+
+
+def _rand_costs(rng, m):
+    kind = rng.choice(COST_KINDS)
+    if kind in ("int_list", "int64", "int32"):
+        return [int(x) for x in rng.choice(INT_COSTS[m])], kind
+    if kind == "mixed_list":
+        return [rng.choice([0.5, 1.5, 2.0, 0.25]) if k % 2 == 0 else float(rng.randint(1, 5)) for k in range(m)], kind
+    return [rng.choice([0.25, 0.5, 1.0, 2.0, 4.0, 3.0, 1.5]) for _ in range(m)], kind
+
+
 def _rand_L(rng, m, p=2, span=6):
     """lower-triangular dyadic factor with positive diagonal: Σ = L Lᵀ is exact, positive definite and
     has off-diagonals of both signs"""
@@ -68,6 +103,15 @@ def gen_cov(ctx):
         if case["acq"] == "varcost":  # powers of two: the division is exact in binary floating point
             case["costs"] = None if rng.random() < 0.3 else [rng.choice([0.25, 0.5, 1.0, 2.0, 4.0]) for _ in range(m)]
         yield case
+    rng2 = random.Random(rng.getrandbits(64))   # later families: own stream, the older ones are unchanged
+    # cost vectors of every dtype (int list, int64, int32, mixed, float list/array) for the decoupled acquisition
+    for _ in range(ctx.n(80, 10000)):
+        n, m, d = rng2.randint(2, 7), rng2.choice([2, 2, 3, 4]), rng2.choice([1, 2])
+        order = list(range(n))
+        rng2.shuffle(order)
+        costs, kind = _rand_costs(rng2, m)
+        yield {"kind": "acq", "acq": "varcost", "X": _designs(rng2, n, d), "L": [_rand_L(rng2, m) for _ in range(n)],
+               "order": order, "q": rng2.randint(1, min(3, n * m)), "costs": costs, "cost_kind": kind}
     total = ctx.n(12, 1200)
     for k in range(total):
         m = rng.choice([2, 2, 3])
@@ -90,6 +134,38 @@ def gen_cov(ctx):
                 [[core.dyadic(rng, -4, 4, 2) for _ in range(m)] for _ in range(m)]
             case["model"] = {"kind": "task", "factor": f, "lengthscale": rng.choice([0.15, 0.3, 0.6])}
         yield case
+    # decoupled algorithms with integer / mixed cost vectors, batch 1..3
+    for k in range(ctx.n(12, 900)):
+        m = rng2.choice([2, 2, 3])
+        n, d = rng2.randint(3, 6), rng2.choice([1, 2])
+        alg = ["PaVeBaPartialGP-rect", "PaVeBaPartialGP-ell", "DecoupledGP"][(k + ctx.worker) % 3]
+        kind = rng2.choice(["int_list", "int_list", "int64", "int32", "mixed_list"])
+        costs = [int(x) for x in rng2.choice(INT_COSTS[m])] if kind != "mixed_list" else _rand_costs_mixed(rng2, m)
+        yield {"kind": "covrun", "alg": alg, "X": _designs(rng2, n, d),
+               "Y": [[core.dyadic(rng2, -8, 8, 3) for _ in range(m)] for _ in range(n)],
+               "cone": {2: "orthant2", 3: "orthant3"}[m],
+               "geom": {"pd": rng2.choice([0.0, 0.03, 0.1]), "pc": rng2.choice([0.6, 0.9, 0.97])},
+               "batch": rng2.choice([1, 2, 2, 3]), "rounds": rng2.randint(2, 4), "seed": rng2.randrange(10 ** 6),
+               "eps": rng2.choice([0.05, 0.2]), "noise_var": rng2.choice([0.01, 0.0625]),
+               "contraction": rng2.choice([1.0, 8.0, 32.0]), "costs": costs, "cost_kind": kind,
+               "budget": 1000.0, "model": {"kind": "plain"}}
+    # the active set shrinks between the start of the round and evaluating(): frequent discards, batches of 2-3,
+    # so that a design discarded in this round is often among the widest of the round-start set
+    for k in range(ctx.n(12, 900)):
+        m = rng2.choice([2, 2, 3])
+        n, d = rng2.randint(5, 8), rng2.choice([1, 2])
+        alg = ["VOGP", "EpsilonPAL", "VOGP"][(k + ctx.worker) % 3]
+        yield {"kind": "covrun", "alg": alg, "X": _designs(rng2, n, d),
+               "Y": [[core.dyadic(rng2, -8, 8, 3) for _ in range(m)] for _ in range(n)],
+               "cone": {2: "orthant2", 3: "orthant3"}[m],
+               "geom": {"pd": rng2.choice([0.25, 0.4, 0.6]), "pc": rng2.choice([0.9, 0.97, 1.0])},
+               "batch": rng2.choice([2, 3]), "rounds": rng2.randint(3, 5), "seed": rng2.randrange(10 ** 6),
+               "eps": rng2.choice([0.05, 0.2]), "noise_var": rng2.choice([0.01, 0.0625]),
+               "contraction": rng2.choice([1.0, 8.0, 32.0]), "model": {"kind": "plain", "family": "shrink"}}
+
+
+def _rand_costs_mixed(rng, m):
+    return [rng.choice([0.5, 1.5, 0.25]) if k % 2 == 0 else float(rng.randint(2, 5)) for k in range(m)]
 
 
 # ------------------------------------------------------------------------------------------------
@@ -107,7 +183,7 @@ def _run_acq(ctx, case):
     from harness.props import c07
 
     X = np.array(case["X"], dtype=float)
-    covs = np.stack([_cov(L) for L in case["L"]])
+    covs = np.array(case["covs"], dtype=float) if "covs" in case else np.stack([_cov(L) for L in case["L"]])
     n, m = len(X), covs.shape[1]
     order, q = case["order"], case["q"]
     x = X[order]
@@ -142,9 +218,12 @@ def _run_acq(ctx, case):
             nontrivial = offdiag > 0 and np.argsort(-np.array(allsum), kind="stable").tolist() != \
                 np.argsort(-np.array([float(t) for t in exact]), kind="stable").tolist()
         else:
-            costs = None if case.get("costs") is None else np.array(case["costs"], dtype=float)
+            handed = _mk_costs(case)                       # what the caller hands over (dtype preserved)
+            costs = None if handed is None else np.array([float(c) for c in handed], dtype=float)
+            exact_div = costs is None or all(float(c) > 0 and np.log2(float(c)).is_integer() for c in costs)
+            ctx.count("cov_cost_kind_" + (case.get("cost_kind", "float_array") if handed is not None else "none"))
             model = stubs.ScriptedModelList(X, np.zeros((n, m)), covs)
-            acq = MaxVarianceDecoupledAcquisition(model, costs=costs)
+            acq = MaxVarianceDecoupledAcquisition(model, costs=handed)
             table = []
             for j in range(m):
                 acq.evaluation_index = j
@@ -154,7 +233,9 @@ def _run_acq(ctx, case):
                     ex = ctx.ask("varcost", core.qmat(covs[i]), str(j), "none" if costs is None else core.qvec(costs))
                     b = core.parse_q(ex) if ex not in ("err", "bad-op") else None
                     row.append(b)
-                    if b is None or core.frac(a) != b:
+                    ok = b is not None and (core.frac(a) == b if exact_div else
+                                            abs(a - float(b)) <= 1e-12 * max(1.0, abs(float(b))))
+                    if not ok:
                         _viol(ctx, "acq-value", "MaxVarianceDecoupledAcquisition: value differs from cov[j][j] / cost[j]",
                               case, kind="F", detail={"design": i, "objective": j, "seen": a, "lean": ex})
                         break
@@ -193,10 +274,16 @@ def _run_covrun(ctx, case):
     from harness.props import c07
 
     spec = case["model"]
-    ctx.count("cov_run_" + spec["kind"])
+    ctx.count("cov_run_" + spec.get("family", spec["kind"]))
     real_build, real_dump = c07._build, c07._dump
 
     def build(case):
+        if spec["kind"] == "plain":
+            c2 = dict(case)
+            if case.get("costs") is not None:
+                c2["costs"] = _mk_costs(case)
+                ctx.count("cov_run_cost_kind_" + case.get("cost_kind", "float_array"))
+            return real_build(c2)
         if spec["kind"] == "scripted":
             X, Y = np.array(case["X"], dtype=float), np.array(case["Y"], dtype=float)
             tables = [(Y, np.stack([_cov(L) for L in stage])) for stage in spec["L"]]
